@@ -995,6 +995,24 @@ func E3BoundsExtrema(c *core.Ctx, r *core.Report) {
 				pos        token.Pos
 				sin0, cos0 bool
 			}
+			// the locals holding sin(phi) and cos(phi): results of math.Sincos
+			sinName, cosName := "", ""
+			for _, s := range cc.Body {
+				if as, ok := s.(*ast.AssignStmt); ok && len(as.Lhs) == 2 && len(as.Rhs) == 1 {
+					if name, _ := core.MathFunc(info, as.Rhs[0]); name == "Sincos" {
+						if a, ok := as.Lhs[0].(*ast.Ident); ok {
+							sinName = a.Name
+						}
+						if b, ok := as.Lhs[1].(*ast.Ident); ok {
+							cosName = b.Name
+						}
+					}
+				}
+			}
+			if sinName == "" || cosName == "" {
+				r.Fail("E3.arc-extrema", "canvas.Path.Bounds|"+label+"|sincos", c.Pos(cc.Pos()), "the sin/cos of the rotation (math.Sincos) were not found")
+				continue
+			}
 			var calls []at
 			for _, s := range cc.Body {
 				as, ok := s.(*ast.AssignStmt)
@@ -1003,14 +1021,14 @@ func E3BoundsExtrema(c *core.Ctx, r *core.Report) {
 				}
 				if name, call := core.MathFunc(info, as.Rhs[0]); name == "Atan2" && len(call.Args) == 2 {
 					calls = append(calls, at{name: types.ExprString(as.Lhs[0]), a0: call.Args[0], a1: call.Args[1], pos: call.Pos(),
-						sin0: mentionsIdent(call.Args[0], "sinphi"), cos0: mentionsIdent(call.Args[0], "cosphi")})
+						sin0: mentionsIdent(call.Args[0], sinName), cos0: mentionsIdent(call.Args[0], cosName)})
 				}
 			}
 			r.Count("E3.arc-atan2", len(calls))
 			for _, a := range calls {
 				key := "canvas.Path.Bounds|" + label + "|" + a.name
 				okRadii := mentionsIdent(a.a0, ry) && !mentionsIdent(a.a0, rx) && mentionsIdent(a.a1, rx) && !mentionsIdent(a.a1, ry)
-				okTrig := a.sin0 != a.cos0 && mentionsIdent(a.a1, "sinphi") != mentionsIdent(a.a1, "cosphi") && a.sin0 != mentionsIdent(a.a1, "sinphi")
+				okTrig := a.sin0 != a.cos0 && mentionsIdent(a.a1, sinName) != mentionsIdent(a.a1, cosName) && a.sin0 != mentionsIdent(a.a1, sinName)
 				if okRadii && okTrig {
 					r.OK("E3.arc-extrema", key, c.Pos(a.pos), types.ExprString(a.a0)+" , "+types.ExprString(a.a1))
 				} else {
